@@ -6,6 +6,7 @@ import (
 	"go/token"
 	"go/types"
 	"log"
+	"sort"
 
 	"github.com/goghcrow/go-ast-matcher"
 	"github.com/goghcrow/go-imports"
@@ -185,6 +186,11 @@ func (r *rewriter) rewriteFile(f *loader.File, printer FilePrinter) {
 	// clear free-floating comments, preventing confusing position of comments
 	// https://github.com/golang/go/issues/20744
 	f.File.Comments = r.comments
+	if r.comments != nil {
+		// a non-nil comment list makes the printer ignore the comments attached to nodes:
+		// keep the doc / line comments of declarations (they may carry directives, e.g. //go:embed)
+		f.File.Comments = mergeComments(attachedComments(f.File), r.comments)
+	}
 	printer(f.Filename, f)
 }
 
@@ -383,4 +389,51 @@ func (r *rewriter) rewriteIter(c *astutil.Cursor, pkg loader.Pkg) bool {
 		return true
 	}
 	return true
+}
+
+// comment groups attached to nodes (doc and line comments of declarations, specs and fields)
+func attachedComments(f *ast.File) (xs []*ast.CommentGroup) {
+	add := func(g *ast.CommentGroup) {
+		if g != nil {
+			xs = append(xs, g)
+		}
+	}
+	ast.Inspect(f, func(n ast.Node) bool {
+		switch n := n.(type) {
+		case *ast.File:
+			add(n.Doc)
+		case *ast.GenDecl:
+			add(n.Doc)
+		case *ast.FuncDecl:
+			add(n.Doc)
+		case *ast.ImportSpec:
+			add(n.Doc)
+			add(n.Comment)
+		case *ast.ValueSpec:
+			add(n.Doc)
+			add(n.Comment)
+		case *ast.TypeSpec:
+			add(n.Doc)
+			add(n.Comment)
+		case *ast.Field:
+			add(n.Doc)
+			add(n.Comment)
+		}
+		return true
+	})
+	return
+}
+
+// merge two comment lists into one sorted by position, without duplicates
+func mergeComments(xs, ys []*ast.CommentGroup) []*ast.CommentGroup {
+	seen := map[*ast.CommentGroup]bool{}
+	var all []*ast.CommentGroup
+	for _, g := range append(append([]*ast.CommentGroup{}, xs...), ys...) {
+		if !seen[g] {
+			seen[g] = true
+			all = append(all, g)
+		}
+	}
+	sort.SliceStable(all, func(i, j int) bool { return all[i].Pos() < all[j].Pos() })
+	return all
 }
